@@ -574,9 +574,16 @@ class DateTimeFieldFormat(AbstractFieldFormat):
         super().__init__(field_name, is_allowed_to_be_empty, length, rule, data_format, empty_value)
         self.human_readable_format = rule
 
-        self.strptime_format = rule
-        for human_readyble_item, strptime_item in DateTimeFieldFormat._HUMAN_READABLE_TO_STRPTIME_TUPLES:
-            self.strptime_format = self.strptime_format.replace(human_readyble_item, strptime_item)
+        # Replace all items in one pass. Replacing them one after another would for example turn the "MMmm"
+        # (month directly followed by minute) first into "%mmm" and then into "%%Mm".
+        human_readable_to_strptime_map = dict(DateTimeFieldFormat._HUMAN_READABLE_TO_STRPTIME_TUPLES)
+        human_readable_regex = "|".join(
+            re.escape(human_readable_item)
+            for human_readable_item, _ in DateTimeFieldFormat._HUMAN_READABLE_TO_STRPTIME_TUPLES
+        )
+        self.strptime_format = re.sub(
+            human_readable_regex, lambda match: human_readable_to_strptime_map[match.group()], rule
+        )
         self._has_time = any(
             directive in self.strptime_format for directive in DateTimeFieldFormat._STRPTIME_TIME_DIRECTIVES
         )
